@@ -120,6 +120,14 @@ example : ∃ s, Reachable (ConcMap.sys { n := 1, c := 1, fix5 := false }) s ∧
     (ls := [.pTop, .pEmitVal, .pSend, .wRecv, .wMapOk 0, .wSend (.val 0), .pTop, .pEmitEof, .pStop, .pCloseSrc,
             .wExitClosed, .pWait, .cCheck, .cRecv, .cNext, .cCheck, .cClosed, .cClose0, .cCloseP]) (by decide)
 
+/-- **Confinement** (code as it is): when the terminal has returned, the producer — the only caller of the source's
+    Emit — has left the source for good: it is past `close(producerStopped)`, not inside Emit, and will not call it
+    again.  This is what makes a second materialisation of the same stream value safe: its reader cannot meet the
+    previous one inside the provider. -/
+theorem C02_concmap_confined (hfix : cfg.fix5 = true) (hr : Reachable (ConcMap.sys cfg) s) (h : s.cons = .ret) :
+    (s.prod = .closing ∨ s.prod = .waiting ∨ s.prod = .done) ∧ s.emitting = 0 :=
+  C02_concmap_close_after_join hfix hr ((ConcMap.basic hr).closed_iff.mpr (Or.inr (Or.inr h)))
+
 end concmap
 
 /-! ### concurrent consume -/
@@ -145,6 +153,13 @@ example : ∃ s, Reachable (ConcConsume.sys { n := 1, c := 1 }) s ∧ (s.srcClos
     (ls := [.pCheck, .pEmitVal, .pSend, .wRecv, .wCbOk 0, .pCheck, .pEmitEof, .pClose, .wExitClosed, .tWaitWg,
             .tWaitProd, .tResult, .tCancelW, .tClose0]) (by decide)
 
+/-- **Confinement**: when the terminal has returned, the producer goroutine has exited. -/
+theorem C02_consume_confined (hr : Reachable (ConcConsume.sys cfg) s) (h : s.term = .ret) :
+    s.prod = .done ∧ s.emitting = 0 := by
+  have hb := ConcConsume.basic hr
+  have hp := hb.term_prod (by simp [h]) (by simp [h])
+  exact ⟨hp, by simpa [hp] using hb.emitting_eq⟩
+
 end consume
 
 /-! ### Buffered -/
@@ -164,6 +179,27 @@ example : ∃ s, Reachable (Buffered.sys { n := 2, size := 2 }) s ∧ (s.pClosed
     (ls := [.fOpenOk, .fCheck, .fEmitVal, .fSend, .cCheck, .cRecv, .fCheck, .fEmitVal, .cStop, .cancel, .fSkip,
             .fCheck, .fCloseP]) (by decide)
 
+/-- **Confinement** (fix B2, `stopBuffering`): when the terminal has returned, the filler goroutine — the only goroutine
+    that touches P — has finished.  Before the fix the terminal returned right after cancelling the materialisation
+    context, with the filler possibly still inside P.Emit; a second materialisation of the same stream value then put two
+    goroutines inside the provider (corpus/C02/confined.case). -/
+theorem C02_buffered_confined (hr : Reachable (Buffered.sys cfg) s) (h : s.cons = .ret) :
+    s.f = .done ∧ s.emitting = 0 := by
+  have hb := Buffered.basic hr
+  have hd := hb.ret_done h
+  exact ⟨hd, by simpa [hd] using hb.emitting_eq⟩
+
+/-- non-vacuity: early stop while the filler is inside Emit; the close sequence waits (`cJoin` is not enabled before
+    the filler is done) and then returns -/
+example : ∃ s, Reachable (Buffered.sys { n := 3, size := 2 }) s ∧ (s.cons == .ret && s.stopped && s.f == .done) = true :=
+  checkRun_reachable
+    (ls := [.fOpenOk, .fCheck, .fEmitVal, .fSend, .cCheck, .cRecv, .fCheck, .cStop, .cClose2, .fEmitVal, .fSkip,
+            .fCheck, .fCloseP, .fClosed, .fDropFin, .fCloseCh, .cJoin]) (by decide)
+
+example : (Buffered.step { n := 3, size := 2 }
+    { (Buffered.init { n := 3, size := 2 }) with cons := .join, term1 := true, f := .inEmit } .cJoin).isNone = true := by
+  decide
+
 end buffered
 
 /-! ### JSON pipe -/
@@ -181,6 +217,23 @@ theorem C02_pipe (hr : Reachable (JsonPipe.sys cfg) s) :
 example : ∃ s, Reachable (JsonPipe.sys { n := 2 }) s ∧ (s.pClosed && s.prClosed && s.dropped) = true :=
   checkRun_reachable
     (ls := [.wOpenOk, .wCheck, .wEmitVal, .rRead, .rReturn, .tPrClose, .wWrFail, .wCloseP]) (by decide)
+
+/-- **Confinement** (fix B3, `<-writerDone`): when `StreamJsonAsReaderAndReturn` has returned, the writer goroutine — the
+    only goroutine that touches P — has finished. -/
+theorem C02_pipe_confined (hfix : cfg.fixJoin = true) (hr : Reachable (JsonPipe.sys cfg) s) (h : s.t = .ret) :
+    s.w = .done ∧ s.emitting = 0 := by
+  have hb := JsonPipe.basic hr
+  have hd := hb.ret_done hfix h
+  exact ⟨hd, by simpa [hd] using hb.emitting_eq⟩
+
+/-- The earlier code (`fixJoin = false`): the function has returned and the writer is inside P.Emit. -/
+theorem C02_witness_pipe_unconfined :
+    ∃ s, Reachable (JsonPipe.sys { n := 1, fixJoin := false }) s ∧ (s.t == .ret && s.w == .inEmit && s.emitting == 1) = true :=
+  checkRun_reachable (ls := [.wOpenOk, .wCheck, .rReturn, .tPrClose, .tCancelS]) (by decide)
+
+example : ∃ s, Reachable (JsonPipe.sys { n := 1 }) s ∧ (s.t == .ret && s.w == .done) = true :=
+  checkRun_reachable (ls := [.wOpenOk, .wCheck, .rReturn, .tPrClose, .tCancelS, .wEmitVal, .wWrFail, .wCloseP, .wClosed,
+    .wCancelC, .wPwClose, .tJoin]) (by decide)
 
 end pipe
 
